@@ -3,7 +3,7 @@ from vq.meta import _m
 _m(
     "C12",
     "exploration",
-    "Hypothesis draws five kinds of cases.  (surface) a polar coefficient dictionary over a random subset (1..14) of the 14 "
+    "Hypothesis draws six kinds of cases.  (surface) a polar coefficient dictionary over a random subset (1..14) of the 14 "
     "(n, m) terms of orders 1..5 -- magnitudes log-uniform 1e-3..1e9 A ('raw') or balanced so that every order contributes "
     "comparably at 30 mrad, random sign, 1 in 12 explicitly 0, angles in (-pi, pi] or left out (1 in 8) or given without "
     "their magnitude (1 in 10) -- x wavelength 0.008..0.09 A x coefficients passed as python floats or 0-d float64 tensors x "
@@ -31,12 +31,22 @@ _m(
     "DirectPtychography._return_lateral_shifts on that mask or from the harness's float64 quadratic model handed to "
     "fit_aberrations_from_shifts directly; isotropic or anisotropic reciprocal sampling, energy 20..300 keV, C10 = +-1..1e5 A, "
     "|C12|/|C10| in [0, 0.9], phi12 in (-pi, pi], rotation in (-pi/2+0.01, pi/2-0.01) (3 in 4) or anywhere in [-pi, pi].  "
+    "(fit_history, 6 per quick run / 60 per thorough worker, ~2 s each) ONE live DirectPtychography object on a synthetic "
+    "virtual bright-field stack -- every image the same smooth random object displaced exactly (Fourier shift) by the "
+    "harness's model shift A R(rot) k lambda of its detector pixel; detector 6..9 x 6..9, point-symmetric disc of radius "
+    "1.8..n/2-0.6 px, scan 24..32 px at 0.3..0.6 A (iso/anisotropic), 0.06..0.12 1/A per detector pixel, 60..300 keV, largest "
+    "displacement 1.5..3 scan px, |C12|/|C10| <= 0.4, rotation in [-1, 1] -- driven through a history fit->fit, "
+    "grid_search->fit or optimize(optuna)->fit (1 in 4 with a third fit), each fit with default arguments or with seeds "
+    "C10 x (0.8..1.2), rotation +- 0.2, options bin_factors (1,)/(2,1)/(3,2,1), alignment reference/pairwise, "
+    "regularize_shifts on/off, dft_upsample_factor 16/32; every cross-correlation fit in the history must return the "
+    "generating values.  "
     "Before the random search the 25 polar symbols and 25 Cartesian labels are each isolated once per wavelength/argument "
     "type, and every alias is sent alone to every site (deterministic enumeration).  A case is NON-TRIVIAL when: surface/cart "
     "-- at least one non-zero coefficient and either >= 2 non-zero coefficients of different radial orders or it is one of "
     "the enumerated singletons; alias -- it contains at least one alias key or an unknown key (or is the reverse "
     "C10 -> defocus site); alias_history -- at least one alias key and either >= 2 uses of the same dictionary object or a "
-    "re-feed step; fit -- C12 != 0 (and the pixel set is well-conditioned).  distinct = SHA-1 of the canonical JSON of the whole case.",
+    "re-feed step; fit -- C12 != 0 (and the pixel set is well-conditioned); fit_history "
+    "-- >= 2 steps with at least one fit and C12 != 0.  distinct = SHA-1 of the canonical JSON of the whole case.",
     [
         "float64 comparisons are relative to the sum of the amplitudes of the terms at each point (2 pi/lambda sum |C_nm| "
         "alpha^(n+1)/(n+1); for gradients 2 pi sum |C_nm| alpha^n (1 + m/(n+1))): tolerance 1e-10 of that unit; largest error "
@@ -53,6 +63,11 @@ _m(
         "[C12 sin2phi, C10-C12 cos2phi]] and R the passive grid rotation [[cos, -sin], [sin, cos]] quantem's "
         "spatial_frequencies applies; both forward and refit use the harness's own wavelength, so only "
         "fit_aberrations_from_shifts is under test there",
+        "fit_history: the shifts are measured by upsampled cross-correlation, so the tolerance is 0.1 (relative aberration "
+        "matrix and rad); largest error measured on the clean tree over 400 generated configurations (~700 fits) 9.6e-3, median "
+        "4e-4; the object is built with empty initial aberrations and rotation 0 because the seed shifts of the public fit use "
+        "the call arguments only (a non-empty initial state is outside what this check feeds); not shrunk on failure (each "
+        "attempt costs a full history)",
         "alias_history: ProbeParametric's learnable copies are only judged on models that were never re-assigned (a "
         "probe_params assignment after construction does not rebuild them; not part of the claim); coefficient magnitudes "
         ">= 1e-3 A there because the stored coefficients are also evaluated as a surface",
